@@ -33,7 +33,8 @@ class C03(Harness):
         return {'depth': {'ordering': 3 if tier == 'quick' else 4, 'filtering': 2 if tier == 'quick' else 3,
                           'cascade': 3 if tier == 'quick' else 4, 'slot': 3 if tier == 'quick' else 4, 'class': 3 if tier == 'quick' else 4,
                           'oneshot': 3 if tier == 'quick' else 4,
-                          'subclass': 3 if tier == 'quick' else 4},
+                          'subclass': 3 if tier == 'quick' else 4, 'follow': 3 if tier == 'quick' else 4,
+                          'oneshot_slot': 3 if tier == 'quick' else 4},
                 'configs': len(self.configs(tier)), 'equality_domain': NVALS}
 
     def configs(self, tier):
@@ -74,6 +75,13 @@ class C03(Harness):
                      W(1, ['a', 'b'], target='cls', precedence=precs[1]),
                      W(2, ['n'], target='cls', what='bounds', onlychanged=False)]
             out.append({'slice': 'class', 'specs': specs})
+        # 8 an instance that follows the class default (with or without a per-instance Parameter) while the class default changes:
+        #   old is the value actually replaced
+        out.append({'slice': 'follow', 'specs': [W(0, ['a'], onlychanged=True), W(1, ['a'], onlychanged=False)]})
+        # 9 one-shot slot watchers
+        for j in range(3):
+            specs = [W(i, ['n'], what='bounds', onlychanged=False, action=['unwatch', i] if i == j else None) for i in range(3)]
+            out.append({'slice': 'oneshot_slot', 'specs': specs})
         # 7 a subclass with its own copies of the Parameters: watchers registered on the base class and on the subclass afterwards
         #   belong to different Parameters (an assignment on one level calls that level's watchers only)
         for precs in itertools.product((0, 1), repeat=2):
@@ -111,6 +119,14 @@ class C03(Harness):
         elif s == 'slot':
             ops = [['slot', 'n', 'bounds', B1], ['slot', 'n', 'bounds', B2], ['set', 'n', 2], ['set', 'n', 1],
                    ['unwatch', 1] if [w for w in world.model.W if w['id'] == 'w1'][0]['active'] else ['watch', 1]]
+        elif s == 'follow':
+            ops = [['touch', 'a'], ['csetq', 'a', 1], ['csetq', 'a', 2], ['set', 'a', 1], ['set', 'a', 2], ['trigger', ['a']]]
+        elif s == 'oneshot_slot':
+            ops = [['slot', 'n', 'bounds', B1], ['slot', 'n', 'bounds', B2]]
+            for i in range(3):
+                mw = [w for w in world.model.W if w['id'] == 'w%d' % i][0]
+                if not mw['active']:
+                    ops.append(['watch', i])
         elif s == 'subclass':
             ops = [['cset', 'a', 1], ['cset', 'a', 2], ['cset', 'b', 1], ['sset', 'a', 1], ['sset', 'a', 2], ['sset', 'b', 2]]
         elif s == 'class':
